@@ -18,6 +18,9 @@ BUILT = {
  'C04': dict(technique='bounded exhaustive enumeration of tokens (full product over the numeral / boolean alphabets) x kind x route x prior errno against exact reference conversions; every conversion executed on the real library',
              text='all tokens up to length 5 (6 thorough) over a 15-symbol numeral alphabet and the boolean letter alphabet, for int/float/bool, through the parser, cfg_setopt and cfg_setmulti, with prior errno 0/ERANGE/EINVAL, plus boundary values around LONG_MIN/LONG_MAX/DBL_MAX in every radix: accepted iff well-formed and in range, exact value, rejection carries a diagnostic, verdict independent of errno.',
              note='trusted: Python int()/float() as exact reference; forms the statement leaves open (leading +, sign before a prefix, blanks, hex floats, inf/nan, denormals) are executed but not compared', ref='5/C04'),
+ 'C06': dict(technique='bounded exhaustive trace enumeration (E1 token sequences x all placements of <= d non-default separators x included-file variants) against the reference scanner/parser; every trace replayed on the real library and its diagnostics compared',
+             text='every E1 token sequence (11 schemas incl. free-form and single sections, undeclared names, multi-line string tokens) with every placement of up to 2 non-default separators (newlines, # // /* */ comments, two-line comment) and the same texts inside / after included files of depth 1-2: rc 1 implies a diagnostic whose context names the expected file and the line on which the offending token ends; an accepted parse emits none.',
+             note='trusted: reflex/RefParser line bookkeeping; for errors that concern a whole item any line of the item is accepted; callbacks that fail silently are out of scope', ref='5/C06'),
 }
 
 checks = []
